@@ -114,7 +114,8 @@ def declare(spec):
         raises={'TypeError': ['sentlog == old(sentlog)', 'not cast and not is_none(cid)',
                               "not ufn('json_able', BOOL, resp)"]},
         modifies=['sentlog', '$val'], exc_modifies=['$val'],
-        ghost_at={'dumps': ["sentlog = sentlog + [repev(cid, mid, obj_get(args[0], 'status'))]"]},
+        # the reply id and status recorded are the ones inside the object that is really serialised
+        ghost_at={'dumps': ["sentlog = sentlog + [repev(cid, obj_get(args[0], 'id'), obj_get(args[0], 'status'))]"]},
     ))
     spec.add(Contract(
         'circus.controller:Controller.send_error',
